@@ -54,7 +54,7 @@ pub fn perform(op: &HistOp) -> Result<u64, String> {
     match op {
         HistOp::Fmt { hi, lo, tr, plus, prec, fail_at_chunk } => {
             let x = raw_twofloat(*hi, *lo);
-            let plan = SinkPlan { fail_at_chunk: *fail_at_chunk, capacity: None, sticky: true, reentrant_hi: None, reentrant_depth: None };
+            let plan = SinkPlan { fail_at_chunk: *fail_at_chunk, capacity: None, sticky: true, reentrant_hi: None, reentrant_depth: None, reentrant_spec: None };
             let mut sink = SimSink::new(&plan);
             let r = guarded(|| fmtleg::render_tf(&mut sink, &x, *tr, *plus, *prec))?;
             let mut h = sink.log;
